@@ -1,4 +1,4 @@
-//@ verus props=C09 tier=quick kind=X timeout=300
+//@ verus props=C09,C10 tier=quick kind=X timeout=300
 // Layer X for C09 "every sent packet is resolved exactly once - acknowledged, declared lost, or discarded together with
 // its keys - and the bytes-in-flight figure always equals the total size of the unresolved congestion-controlled
 // packets": recovery::Manager::on_packet_number_space_discarded (quic/s2n-quic-transport/src/recovery/manager.rs),
@@ -58,7 +58,9 @@ pub proof fn lemma_outstanding_mono(s: Seq<(PacketNumber, SentPacketInfo)>, i: i
     else { assert(s.take(i) =~= s); if i > 0 { lemma_outstanding_take(s, i - 1); } }
 }
 
-pub struct Manager { pub sent_packets: Vec<(PacketNumber, SentPacketInfo)> }
+#[derive(Clone, Copy)]
+pub enum PacketNumberSpace { Initial, Handshake, ApplicationData }
+pub struct Manager { pub sent_packets: Vec<(PacketNumber, SentPacketInfo)>, pub space: PacketNumberSpace }
 
 impl Manager {
     fn on_packet_number_space_discarded_bytes(&mut self, path: &mut PathX, path_id: PathId, publisher: &mut PubX)
@@ -72,6 +74,27 @@ impl Manager {
             final(self).sent_packets@ == old(self).sent_packets@,
     {
 //@ splice-stmts quic/s2n-quic-transport/src/recovery/manager.rs "Manager<Config>" on_packet_number_space_discarded "from=let mut discarded_bytes" "to=path.congestion_controller.on_packet_discarded(" dropstmt=debug_assert_eq! "subst=congestion_controller::PathPublisher::new=>PathPublisherX::new"
+//@^ before "self.sent_packets.iter()" :: it:
+//@^ after "self.sent_packets.iter()" :: invariant discarded_bytes as int == outstanding(self.sent_packets@.take(it.index@ as int)), outstanding(self.sent_packets@) <= usize::MAX, it.index@ <= self.sent_packets@.len(), self.sent_packets@ == old(self).sent_packets@,
+//@^ before "discarded_bytes +=" :: proof { lemma_outstanding_take(self.sent_packets@, it.index@ as int); lemma_outstanding_mono(self.sent_packets@, it.index@ as int + 1); }
+//@^ before "path.congestion_controller.on_packet_discarded(" :: proof { assert(self.sent_packets@.take(self.sent_packets@.len() as int) =~= self.sent_packets@); }
+    }
+
+    // recovery::Manager::new(space): an empty manager (constructor; its field initialisers are not under contract)
+    #[verifier::external_body]
+    fn new(space: PacketNumberSpace) -> (r: Manager) ensures r.sent_packets@.len() == 0 { unimplemented!() }
+
+    // ---- on_retry_packet (client, RFC 9002 6.3 / B.9-style reset): WHOLE function body ---------------------------------
+    // every Initial packet sent before the Retry is forgotten AND its bytes leave bytes-in-flight first (in this order:
+    // summing after the reset would discard nothing and leak the bytes forever)
+    fn on_retry_packet_body(&mut self, path: &mut PathX, path_id: PathId, publisher: &mut PubX)
+        requires outstanding(old(self).sent_packets@) <= usize::MAX,
+        ensures
+            final(path).congestion_controller.discarded@ == old(path).congestion_controller.discarded@ + outstanding(old(self).sent_packets@),
+            final(path).congestion_controller.calls@ == old(path).congestion_controller.calls@ + 1,
+            final(self).sent_packets@.len() == 0,
+    {
+//@ splice-stmts quic/s2n-quic-transport/src/recovery/manager.rs "Manager<Config>" on_retry_packet body=1 dropstmt=debug_assert! "subst=congestion_controller::PathPublisher::new=>PathPublisherX::new"
 //@^ before "self.sent_packets.iter()" :: it:
 //@^ after "self.sent_packets.iter()" :: invariant discarded_bytes as int == outstanding(self.sent_packets@.take(it.index@ as int)), outstanding(self.sent_packets@) <= usize::MAX, it.index@ <= self.sent_packets@.len(), self.sent_packets@ == old(self).sent_packets@,
 //@^ before "discarded_bytes +=" :: proof { lemma_outstanding_take(self.sent_packets@, it.index@ as int); lemma_outstanding_mono(self.sent_packets@, it.index@ as int + 1); }
